@@ -81,7 +81,7 @@ func c08(args []string) {
 				out.Emit(N{"t": cur, "ev": "end", "v": []any{N{"k": "err", "c": o.Class}}, "src": src, "msg": fmt.Sprintf("%.160s", o.Msg)})
 			}
 		}
-		for variant := 0; variant <= 11; variant++ {
+		for variant := 0; variant <= 13; variant++ {
 			if 6 <= variant && variant <= 8 {
 				continue // emitted with variant 0
 			}
@@ -194,6 +194,39 @@ func c08(args []string) {
 					}
 				}
 				end(h.Eval(s, src), src)
+			case 12:
+				// every function is defined three times: a stub, another stub, and then - callers first, inside a let whose
+				// variable nothing uses - the real definition: the call sites in the body of a caller are compiled between the
+				// second and the third definition of the function they call
+				start(id)
+				stubs1, stubs2, wrapped := make([]string, len(names)), make([]string, len(names)), make([]string, len(reversed))
+				for i, n := range names {
+					stubs1[i] = fmt.Sprintf("(defun %s%s (&rest other) -1)", n, suffix)
+					stubs2[i] = fmt.Sprintf("(defun %s%s (&rest other) -2)", n, suffix)
+				}
+				for i, d := range reversed {
+					wrapped[i] = "(let ((c08-unused 0)) " + d + ")"
+				}
+				if define(stubs1) && define(stubs2) && define(wrapped) {
+					end(h.Eval(s, src), src)
+				}
+			case 13:
+				// the real definitions, then every function redefined as a stub and back to itself, in the given order: the
+				// callers compiled with the first definition and the ones compiled with the third call the same function
+				start(id)
+				if !define(defsrc) {
+					continue
+				}
+				ok := true
+				for i, n := range names {
+					if i < len(defsrc) && !define([]string{fmt.Sprintf("(defun %s%s (&rest other) -3)", n, suffix)}) {
+						ok = false
+						break
+					}
+				}
+				if ok && define(defsrc) {
+					end(h.Eval(s, src), src)
+				}
 			case 11:
 				// every function is first a stub; the main form is read once and evaluated against the stubs (not recorded),
 				// so that its call sites are compiled; then the real definitions follow, callers first (their call sites are
